@@ -70,7 +70,7 @@ def raw(F, e):
 
 def in_bounds(T, v, F):
     """Accessor-wise bounds of the sample `v` (components of type F; the accessors are taken from the f32 instantiation)."""
-    ty32 = T["ty"].format(F="f32")
+    ty32 = T["ty"].format(F="f32" if F == "K32" else F)
     parts = []
     for c, (mn, mx) in T["bounds"].items():
         x = raw(F, f"{v}.{c}")
@@ -103,31 +103,32 @@ def gen():
             "use crate::c19_support::*;\n")
 
     # ---- (a) Standard distribution -------------------------------------------------------------------------------------
-    for T in CART + CYL:
-        ty = T["ty"].format(F="f32")
+    for F in ("f32", "f64"):
+      for T in CART + CYL:
+        ty = T["ty"].format(F=F)
         macro = "impl_rand_traits_cartesian!" if T in CART else "impl_rand_traits_cylinder!"
-        asserts = "\n".join(f"assert!({p});" for p in in_bounds(T, "c", "f32"))
-        o.harness(f"c19_{T['key']}_f32_standard_in_bounds",
-                  f"{ty}: a colour drawn from rand's Standard distribution (`rng.gen()`, {macro} expansion over rand's real f32 sampling code"
-                  f"{' and the real f32 sqrt' if T in CYL else ''}) reports is_within_bounds() and satisfies {bounds_text(T)}",
+        asserts = "\n".join(f"assert!({p});" for p in in_bounds(T, "c", F))
+        o.harness(f"c19_{T['key']}_{F}_standard_in_bounds",
+                  f"{ty}: a colour drawn from rand's Standard distribution (`rng.gen()`, {macro} expansion over rand's real {F} sampling code"
+                  f"{' and the real ' + F + ' sqrt' if T in CYL else ''}) reports is_within_bounds() and satisfies {bounds_text(T)}",
                   f"""
                   let mut rng = AnyRng;
                   let c: {ty} = rng.gen();
                   kani::cover!(true);
                   assert!(c.is_within_bounds());
                   {asserts}
-                  """, [f"<rand::distributions::Standard as Distribution<{ty}>>::sample", "<Standard as Distribution<f32>>::sample (rand 0.8)"],
-                  RNG_BOUND + "; f32")
-    for key, H in HUES:
-        o.harness(f"c19_{key}_f32_standard_in_bounds",
-                  f"{H}<f32>: a hue drawn from the Standard distribution is a raw angle in [0, 360) degrees",
+                  """, [f"<rand::distributions::Standard as Distribution<{ty}>>::sample", f"<Standard as Distribution<{F}>>::sample (rand 0.8)"],
+                  RNG_BOUND + "; " + F, thorough=(F == "f64" and T in CYL))
+      for key, H in HUES:
+        o.harness(f"c19_{key}_{F}_standard_in_bounds",
+                  f"{H}<{F}>: a hue drawn from the Standard distribution is a raw angle in [0, 360) degrees",
                   f"""
                   let mut rng = AnyRng;
-                  let h: {H}<f32> = rng.gen();
+                  let h: {H}<{F}> = rng.gen();
                   kani::cover!(true);
                   let d = h.into_raw_degrees();
                   assert!(d >= 0.0 && d < 360.0);
-                  """, [f"<rand::distributions::Standard as Distribution<{H}<f32>>>::sample"], RNG_BOUND + "; f32")
+                  """, [f"<rand::distributions::Standard as Distribution<{H}<{F}>>>::sample"], RNG_BOUND + "; " + F)
     for T in CONE + BICONE + HWB:
         ty = T["ty"].format(F="K32")
         macro = ("impl_rand_traits_hsv_cone!" if T in CONE else "impl_rand_traits_hsl_bicone!" if T in BICONE else "impl_rand_traits_hwb_cone!")
